@@ -345,13 +345,15 @@ func wildWalk(rest, path Expr, nodes []any, cb func(path Expr, nodes []any), f F
 		for i, v := range tv {
 			path[len(path)-1] = Nth(i)
 			nodes[len(nodes)-1] = v
-			if 0 < len(rest) {
+			if f != nil {
+				if len(rest) == 0 {
+					cb(path, nodes)
+				}
+				f.Walk(rest, path, nodes, cb)
+			} else if 0 < len(rest) {
 				rest[0].Walk(rest[1:], path, nodes, cb)
 			} else {
 				cb(path, nodes)
-			}
-			if f != nil {
-				f.Walk(rest, path, nodes, cb)
 			}
 		}
 	case map[string]any:
@@ -365,13 +367,15 @@ func wildWalk(rest, path Expr, nodes []any, cb func(path Expr, nodes []any), f F
 				v := tv[k]
 				path[len(path)-1] = Child(k)
 				nodes[len(nodes)-1] = v
-				if 0 < len(rest) {
+				if f != nil {
+					if len(rest) == 0 {
+						cb(path, nodes)
+					}
+					f.Walk(rest, path, nodes, cb)
+				} else if 0 < len(rest) {
 					rest[0].Walk(rest[1:], path, nodes, cb)
 				} else {
 					cb(path, nodes)
-				}
-				if f != nil {
-					f.Walk(rest, path, nodes, cb)
 				}
 			}
 		}
@@ -379,13 +383,15 @@ func wildWalk(rest, path Expr, nodes []any, cb func(path Expr, nodes []any), f F
 		for i, v := range tv {
 			path[len(path)-1] = Nth(i)
 			nodes[len(nodes)-1] = v
-			if 0 < len(rest) {
+			if f != nil {
+				if len(rest) == 0 {
+					cb(path, nodes)
+				}
+				f.Walk(rest, path, nodes, cb)
+			} else if 0 < len(rest) {
 				rest[0].Walk(rest[1:], path, nodes, cb)
 			} else {
 				cb(path, nodes)
-			}
-			if f != nil {
-				f.Walk(rest, path, nodes, cb)
 			}
 		}
 	case gen.Object:
@@ -399,13 +405,15 @@ func wildWalk(rest, path Expr, nodes []any, cb func(path Expr, nodes []any), f F
 				v := tv[k]
 				path[len(path)-1] = Child(k)
 				nodes[len(nodes)-1] = v
-				if 0 < len(rest) {
+				if f != nil {
+					if len(rest) == 0 {
+						cb(path, nodes)
+					}
+					f.Walk(rest, path, nodes, cb)
+				} else if 0 < len(rest) {
 					rest[0].Walk(rest[1:], path, nodes, cb)
 				} else {
 					cb(path, nodes)
-				}
-				if f != nil {
-					f.Walk(rest, path, nodes, cb)
 				}
 			}
 		}
@@ -413,13 +421,15 @@ func wildWalk(rest, path Expr, nodes []any, cb func(path Expr, nodes []any), f F
 		for i := 0; i < tv.Size(); i++ {
 			path[len(path)-1] = Nth(i)
 			nodes[len(nodes)-1] = tv.ValueAtIndex(i)
-			if 0 < len(rest) {
+			if f != nil {
+				if len(rest) == 0 {
+					cb(path, nodes)
+				}
+				f.Walk(rest, path, nodes, cb)
+			} else if 0 < len(rest) {
 				rest[0].Walk(rest[1:], path, nodes, cb)
 			} else {
 				cb(path, nodes)
-			}
-			if f != nil {
-				f.Walk(rest, path, nodes, cb)
 			}
 		}
 	case Keyed:
@@ -428,13 +438,15 @@ func wildWalk(rest, path Expr, nodes []any, cb func(path Expr, nodes []any), f F
 		for _, k := range keys {
 			path[len(path)-1] = Child(k)
 			nodes[len(nodes)-1], _ = tv.ValueForKey(k)
-			if 0 < len(rest) {
+			if f != nil {
+				if len(rest) == 0 {
+					cb(path, nodes)
+				}
+				f.Walk(rest, path, nodes, cb)
+			} else if 0 < len(rest) {
 				rest[0].Walk(rest[1:], path, nodes, cb)
 			} else {
 				cb(path, nodes)
-			}
-			if f != nil {
-				f.Walk(rest, path, nodes, cb)
 			}
 		}
 	case nil, bool, string, float64, float32, gen.Bool, gen.Float, gen.String,
@@ -456,13 +468,15 @@ func wildWalk(rest, path Expr, nodes []any, cb func(path Expr, nodes []any), f F
 					if rv.CanInterface() {
 						path[len(path)-1] = Child(rt.Field(i).Name)
 						nodes[len(nodes)-1] = rv.Interface()
-						if 0 < len(rest) {
+						if f != nil {
+							if len(rest) == 0 {
+								cb(path, nodes)
+							}
+							f.Walk(rest, path, nodes, cb)
+						} else if 0 < len(rest) {
 							rest[0].Walk(rest[1:], path, nodes, cb)
 						} else {
 							cb(path, nodes)
-						}
-						if f != nil {
-							f.Walk(rest, path, nodes, cb)
 						}
 					}
 				}
@@ -473,13 +487,15 @@ func wildWalk(rest, path Expr, nodes []any, cb func(path Expr, nodes []any), f F
 					if rv.CanInterface() {
 						path[len(path)-1] = Nth(i)
 						nodes[len(nodes)-1] = rv.Interface()
-						if 0 < len(rest) {
+						if f != nil {
+							if len(rest) == 0 {
+								cb(path, nodes)
+							}
+							f.Walk(rest, path, nodes, cb)
+						} else if 0 < len(rest) {
 							rest[0].Walk(rest[1:], path, nodes, cb)
 						} else {
 							cb(path, nodes)
-						}
-						if f != nil {
-							f.Walk(rest, path, nodes, cb)
 						}
 					}
 				}
@@ -493,13 +509,15 @@ func wildWalk(rest, path Expr, nodes []any, cb func(path Expr, nodes []any), f F
 					if rv.CanInterface() {
 						path[len(path)-1] = Child(kv.String())
 						nodes[len(nodes)-1] = rv.Interface()
-						if 0 < len(rest) {
+						if f != nil {
+							if len(rest) == 0 {
+								cb(path, nodes)
+							}
+							f.Walk(rest, path, nodes, cb)
+						} else if 0 < len(rest) {
 							rest[0].Walk(rest[1:], path, nodes, cb)
 						} else {
 							cb(path, nodes)
-						}
-						if f != nil {
-							f.Walk(rest, path, nodes, cb)
 						}
 					}
 				}
